@@ -411,11 +411,15 @@ def make_adapters_from_one_specification(
         parameters = search_parameters.copy()
         parameters.update(parse_search_parameters(parameters_spec))
         for name, spec in read_adapters_fasta(path):
-            # A record may have its own search parameters ("ACGT;e=0.2"): the
-            # anchoring characters belong to the sequence
-            sequence, semicolon, record_parameters = spec.partition(";")
+            # A record may have its own search parameters ("ACGT;e=0.2") and
+            # may be a linked adapter ("ACGT;e=0.2...TGCA;o=3"): "^" goes in
+            # front of the record, "$" behind the last sequence
+            first_parts, ellipsis, last_part = spec.rpartition("...")
+            sequence, semicolon, record_parameters = last_part.partition(";")
             yield make_adapter(
                 anchoring_prefix
+                + first_parts
+                + ellipsis
                 + sequence
                 + anchoring_suffix
                 + semicolon
